@@ -7,12 +7,17 @@
      the lead-in buffer) and keep the kind and the remaining bytes;
      orel R x y: x and y are the same outcome (both Ok with R-related values, the
      same Fault site, or both out of fuel).
-   Not proved: the global count "each extracted directory is re-presented exactly
-   once" over arbitrary histories (its step facts and the drain at the end are),
-   and the two-history form for extract operations; both are decided by the
-   correspondence and the oracles of the check. *)
+   The second part re-exports (same names) the theorems of P_ReaderDirCount.v,
+   P_ReaderTwoHist.v, P_ReaderBytes.v, P_ReaderMembers.v: the global count of
+   re-presented directories, the two-history form, and "the bytes obtainable from a
+   member and its check verdict do not depend on the history" (arity-2 parametricity
+   of the decoders, P_AnyParam2.v).  Scope note proved as file_extract_changes_headers:
+   EXTRACTING a file named like a later directory entry changes what is re-presented
+   (through the filesystem: the mkdir fails); the property's list -- skipped, read,
+   checked -- does not include extraction. *)
 From Lhasa Require Import Base DecBase Loop Generated InputStream Header BasicReader AnyDecoder Decoder
   MacBinary Fs FsRun Reader P_StreamEquiv P_BasicReaderIndep P_ReaderIndep P_ReaderIndepFull.
+From Lhasa Require P_ReaderDirCount P_ReaderTwoHist P_ReaderBytes P_ReaderMembers.
 Local Open Scope N_scope.
 
 Section C15.
@@ -132,6 +137,41 @@ Theorem two_readers_do_not_interact : forall mktime junk (l : list (who * op)) s
   P_ReaderIndep.run_ops mktime junk sb (proj false l) = Ok (proj false xs, sb').
 Proof. exact two_readers_independent. Qed.
 
+(* ====== counts, two histories, member bytes (statements: see the P_ files) ======
+
+   pushed_popped_stack / dirs_presented_exactly_once: over ANY op sequence and policy the
+   directories pushed by successful extracts are a permutation of those re-presented plus
+   those still on the stack; once the end has been reported every extracted directory has
+   been re-presented exactly once.  end_of_dir_position: under END_OF_DIR the top directory
+   is re-presented exactly when the archive is exhausted or the pending member is outside
+   it -- i.e. at the first later entry outside it. *)
+Theorem pushed_popped_stack : ltac:(let t := type of P_ReaderDirCount.pushed_popped_stack in exact t).
+Proof. exact P_ReaderDirCount.pushed_popped_stack. Qed.
+Theorem dirs_presented_exactly_once : ltac:(let t := type of P_ReaderDirCount.dirs_presented_exactly_once in exact t).
+Proof. exact P_ReaderDirCount.dirs_presented_exactly_once. Qed.
+Theorem end_of_dir_position : ltac:(let t := type of P_ReaderDirCount.end_of_dir_position in exact t).
+Proof. exact P_ReaderDirCount.end_of_dir_position. Qed.
+
+(* two histories with the same skeleton of next / extract-of-directory-or-link calls that
+   differ only in reads and checks (any number, any sizes) return the same headers and end
+   in equivalent readers; with file extracts as decode operations the same holds when no
+   directory or link entry is extracted (the filesystems may then differ) *)
+Theorem two_histories : ltac:(let t := type of P_ReaderTwoHist.two_histories in exact t).
+Proof. exact P_ReaderTwoHist.two_histories. Qed.
+Theorem two_histories_file_extracts : ltac:(let t := type of P_ReaderTwoHist.two_histories_file_extracts in exact t).
+Proof. exact P_ReaderTwoHist.two_histories_file_extracts. Qed.
+Theorem file_extract_changes_headers : ltac:(let t := type of P_ReaderTwoHist.file_extract_changes_headers in exact t).
+Proof. exact P_ReaderTwoHist.file_extract_changes_headers. Qed.
+
+(* equivalent readers deliver the same bytes for every read schedule and the same check
+   verdict (and progress events): what a member yields does not depend on the history *)
+Theorem member_bytes_independent : ltac:(let t := type of P_ReaderBytes.member_bytes_independent in exact t).
+Proof. exact P_ReaderBytes.member_bytes_independent. Qed.
+Theorem member_check_independent : ltac:(let t := type of P_ReaderBytes.member_check_independent in exact t).
+Proof. exact P_ReaderBytes.member_check_independent. Qed.
+Theorem two_histories_next_member : ltac:(let t := type of P_ReaderMembers.two_histories_next_member in exact t).
+Proof. exact P_ReaderMembers.two_histories_next_member. Qed.
+
 Print Assumptions end_is_absorbing_next.
 Print Assumptions end_is_absorbing_ops.
 Print Assumptions no_decode_outside_members.
@@ -144,3 +184,12 @@ Print Assumptions plain_policy_never_represents.
 Print Assumptions deferred_links_longest_first.
 Print Assumptions end_of_archive_drain.
 Print Assumptions two_readers_do_not_interact.
+Print Assumptions pushed_popped_stack.
+Print Assumptions dirs_presented_exactly_once.
+Print Assumptions end_of_dir_position.
+Print Assumptions two_histories.
+Print Assumptions two_histories_file_extracts.
+Print Assumptions file_extract_changes_headers.
+Print Assumptions member_bytes_independent.
+Print Assumptions member_check_independent.
+Print Assumptions two_histories_next_member.
